@@ -141,14 +141,20 @@ class Run:
                 shutil.copyfile(os.path.join(SPEC, f), os.path.join(d, f))
         return d
 
-    def model_check(self, module, cfg, expect_violation=None, workers=None, timeout=1500, deque=False):
+    def model_check(self, module, cfg, expect_violation=None, workers=None, timeout=1500, deque=False, extra=()):
         """Bounded exhaustive run.  expect_violation names an invariant that
         MUST be violated (as-is regression models: the invariant is not
         vacuous and the deviation model explains the finding)."""
         d = self.specdir("mc-" + cfg.replace(".cfg", ""))
-        rc, lines, killed = self._tlc(d, module + ".tla", cfg, workers or NCPU, timeout, deque=deque)
+        rc, lines, killed = self._tlc(d, module + ".tla", cfg, workers or NCPU, timeout, deque=deque, extra=extra)
         st, tr = self._counts(lines)
         ok = any("Model checking completed. No error has been found." in ln for ln in lines)
+        if "-simulate" in extra:   # behaviour generation: no "completed" banner
+            ok = not any(ln.startswith("Error") for ln in lines) and any("traces generated" in ln or "Finished in" in ln for ln in lines)
+            for ln in lines:
+                m = re.match(r"^The number of states generated: (\d+)", ln)
+                if m:
+                    st = tr = int(m.group(1))
         violated = [ln for ln in lines if re.match(r"^Error: (Invariant|Action property|Temporal properties).*violated", ln)]
         self.last_prints = [ln for ln in lines if ln.startswith('<<"')]
         rec = {"module": module, "cfg": cfg, "states": st, "transitions": tr, "ok": ok,
